@@ -115,7 +115,8 @@ func runModel(cases []*Case, modelIndex string) ([][][]string, error) {
 		}
 	}
 	fmt.Fprintf(&in, "echo @end\n")
-	cmd := exec.Command(modelBin, modelIndex)
+	// the extracted list functions are not tail-recursive: 128 KiB keys need a deep stack
+	cmd := exec.Command("sh", "-c", "ulimit -s unlimited 2>/dev/null || ulimit -s 4000000 2>/dev/null; exec \"$0\" \"$1\"", modelBin, modelIndex)
 	cmd.Stdin = &in
 	var stderr bytes.Buffer
 	cmd.Stderr = &stderr
@@ -243,7 +244,7 @@ func clipAll(l []string) []string {
 // checkModel compares implementation and model step by step.
 func checkModel(c *Case, impl, model [][]string, index string) *Finding {
 	for i := range c.Steps {
-		if index == "flat" && c.Steps[i].Cmd == "dumpindex" {
+		if index == "flat" && (c.Steps[i].Cmd == "dumpindex" || strings.HasPrefix(c.Steps[i].Cmd, "iternext ")) {
 			continue // the bucket layout is not a notion of the flat reference index
 		}
 		if !eqLines(impl[i], model[i]) {
@@ -337,13 +338,45 @@ func (r *Result) sample(c *Case, max int) {
 func runCases(r *Result, cases []*Case, impls [][][]string, withModel bool) {
 	models := map[string][][][]string{}
 	if withModel {
+		// the model driver is run in parallel on chunks of the cases, for both index instantiations
+		type job struct {
+			index    string
+			from, to int
+			res      [][][]string
+			err      error
+		}
+		var jobs []*job
+		chunk := (len(cases) + 7) / 8
+		if chunk < 1 {
+			chunk = 1
+		}
 		for _, index := range []string{"flat", "chain"} {
-			m, err := runModel(cases, index)
-			if err != nil {
-				r.Findings = append(r.Findings, &Finding{Kind: "model:" + index, Case: "driver", Impl: []string{err.Error()}})
-				withModel = false
+			for from := 0; from < len(cases); from += chunk {
+				to := from + chunk
+				if to > len(cases) {
+					to = len(cases)
+				}
+				jobs = append(jobs, &job{index: index, from: from, to: to})
 			}
-			models[index] = m
+		}
+		done := make(chan *job)
+		for _, j := range jobs {
+			go func(j *job) {
+				j.res, j.err = runModel(cases[j.from:j.to], j.index)
+				done <- j
+			}(j)
+		}
+		for range jobs {
+			j := <-done
+			if j.err != nil {
+				r.Findings = append(r.Findings, &Finding{Kind: "model:" + j.index, Case: "driver", Impl: []string{j.err.Error()}, Program: []string{}})
+				withModel = false
+				continue
+			}
+			if models[j.index] == nil {
+				models[j.index] = make([][][]string, len(cases))
+			}
+			copy(models[j.index][j.from:j.to], j.res)
 		}
 	}
 	seen := map[string]bool{}
